@@ -105,4 +105,39 @@ def check_C16(ctx):
                   assumptions=TRUSTED)
 
 
-CHECKS = {"C11": check_C11, "C09": check_C09, "C16": check_C16}
+# --------------------------------------------------------------------------- C17
+
+C17_LAWS = ["PlusMinusInverse", "Commutative", "FloorCeil", "RoundNearest", "AbsNonNeg", "DivisionUndoes",
+            "IntDivisionBounds", "ZeroDivisorIsError", "NotANumberIsError", "ModuloRange"]
+
+
+def check_C17(ctx):
+    k = 4 if ctx.quick else 12
+    cases, _ = ctx.tlc_mc("MC_C17", mc_cfg({"K": k}, C17_LAWS + ["EmitCase"]), timeout=1800)
+    obs = ctx.run_cases(cases)
+    ctx.validate(obs)
+    return finish(ctx, rule="every (receiver, numeric filter, argument) over integers -K..K (K=%d), quarters, numeric and "
+                            "non-numeric strings and nil; TLC checks the arithmetic laws on the exact-rational reference, the "
+                            "implementation renders {{ x | f: y }} and TraceRender validates it; non-trivial = decided" % k,
+                  assumptions=TRUSTED)
+
+
+# --------------------------------------------------------------------------- C15
+
+C15_LAWS = ["SortIsAscendingPermutation", "SortByKeyLackingFirst", "ReverseInvolution", "UniqLaw", "CompactLaw",
+            "FirstLastSize", "ConcatLaw", "MapLaw"]
+
+
+def check_C15(ctx):
+    n = 3 if ctx.quick else 4
+    cases, _ = ctx.tlc_mc("MC_C15", mc_cfg({"N": n, "Reprs": "TRUE"}, C15_LAWS + ["EmitCase"]), timeout=1800)
+    obs = ctx.run_cases(cases)
+    ctx.validate(obs)
+    return finish(ctx, rule="every array of <= %d elements over four element universes (numbers with nil, strings, maps with "
+                            "present/absent/nil key, ints) x the array-filter calls and two-filter chains x the Go "
+                            "representations that can hold it (generic, typed slice, fixed array, ordered map); the probe "
+                            "prints the result element by element and then the input again; non-trivial = decided" % n,
+                  assumptions=TRUSTED)
+
+
+CHECKS = {"C11": check_C11, "C09": check_C09, "C16": check_C16, "C17": check_C17, "C15": check_C15}
